@@ -130,7 +130,7 @@ def rules(ctx):
         bad = None
         n_eval = 0
         try:
-            for C in (2, 4, 8):
+            for C in ((2, 4, 8) if ctx.tier != "thorough" else (2, 4, 8, 16, 32, 64)):
                 for top in range(0, 4 * C):
                     for cnt in (C,):
                         bottom = top + cnt
